@@ -722,6 +722,20 @@ func rulePanicTable(c *core.Ctx) {
 					// getCryptFilter fills it from CFM below; checked there
 					return true
 				}
+				if ci != "cipherRC4" && ci != "cipherAES" {
+					// a value taken from a table of schemes: every row of the table must carry one of the two
+					dom, ok := structFieldDomain(c, pkg, info, f["Cipher"])
+					good := ok && len(dom) > 0
+					for v := range dom {
+						if v != "cipherRC4" && v != "cipherAES" {
+							good = false
+						}
+					}
+					if ok && good {
+						o.Fact("cipher taken from a table with the values %s", joinSet(dom))
+						return true
+					}
+				}
 				o.Require(ci == "cipherRC4" || ci == "cipherAES", "crypt filter created with cipher %s", ci)
 				return true
 			})
